@@ -651,6 +651,10 @@ InvAckKept == \A n \in datas : (n \in pend) \/ (n \in inflight) \/ ackcnt[n] >= 
 \* bound of the exhaustive configurations
 Bound == seq <= MaxPub
 
+\* action constraint of the fault-scenario generation: faults arrive after the application has
+\* made its Subscribe calls (the harness injects them in that order)
+FaultsAfterCalls == (faults' # faults) => \A a \in Apps : apc[a] = "idle" /\ (script[a] = <<>> \/ Head(script[a]) = "close")
+
 \* Behaviour emission (gen configurations, Hist = TRUE): a behaviour ends when it is stuck or
 \* when every call returned and loop and monitor are at rest
 Terminal == ~ENABLED Next
@@ -664,7 +668,8 @@ LostResume == Quiescent /\ state = "Connected" /\ conn = "up" /\ subs # {} /\ lo
 
 Beh == [steps |-> hist, stuck |-> Stuck, lostresume |-> LostResume,
         blockedApps |-> {a \in Apps : apc[a] # "idle"}, lpc |-> lpc, mpc |-> mpc, state |-> state,
-        pausech |-> pausech, resumech |-> resumech, mux |-> mux, subs |-> subs]
+        pausech |-> pausech, resumech |-> resumech, mux |-> mux, subs |-> subs,
+        fseq |-> fseq, lost |-> lost, closed |-> closedSeen]
 InvEmit == (Hist /\ EmitNow) => PrintT("BEH " \o ToJson(Beh))
 \* only the interesting ends (exhaustive generation: one behaviour per distinct end state)
 InvEmitBad == (Hist /\ (Stuck \/ (AtRest /\ LostResume))) => PrintT("BEH " \o ToJson(Beh))
